@@ -623,6 +623,10 @@ func (w *World) build() error {
 				ig = c
 			}
 		}
+		if !d.Enabled {
+			// a disabled integration has no task (and records nothing)
+			continue
+		}
 		for _, ref := range d.Sources {
 			ss := w.srcs[ref.Name]
 			if ss == nil {
